@@ -289,6 +289,50 @@ CLAIMED = {
    technique='Coq proof over regenerated (py2coq) window arithmetic + vm_compute correspondence against sqlite',
    design='3/C10'),
 }
+
+# additions of the third build session (DESIGN.md 9.7), appended to the texts above
+MORE = {
+ 'C06': dict(text=' Non-column keywords of set() -- a property of the class whose setter refuses its value, a keyword the class does not know -- are part of the '
+                  'operation language: they are handed to setattr after every column value is validated and before anything is cached, queued or written, on eager and '
+                  'lazy classes alike (repair 71eb426), so a refused one falls under C06_failing_write_changes_nothing (C06_refused_extra_keyword).'),
+ 'C08': dict(text=' A second, big-step model of ONE caller covers what the tick machine does not: nested doInTransaction calls to any depth (with or without an except clause '
+                  'around the inner call), bodies raising a BaseException that is not an Exception, bodies that assign or delete hub.threadConnection or commit/roll back '
+                  'the transaction they are given: the hub slots are restored on every exit path (C08_nest_slots_restored, C08_nest_hub_restored), every transaction the call '
+                  'opened is closed and the write lock free when it is left, BaseException included since repair e6ce2b8 (C08_nest_released, C08_nest_lock_free), a raise out '
+                  'of a body without nested calls changes nothing (C08_nest_nothing_on_raise); an inner call that returned stays committed when the outer body raises '
+                  '(C08_nest_all_or_nothing_refuted: open finding nested_commit_survives_outer_rollback).',
+             note=' The nested model is for one caller (the multi-thread machine knows no nesting); the two models are tied on flat bodies through the correspondence only.'),
+ 'C11': dict(text=' Every query is also judged on a per-call connection= (keyword or .connection(c) anywhere in the chain) to a second, file-backed database with decoy rows '
+                  'in the class\'s own one, and through a Transaction holding uncommitted inserts/updates/deletes: every operation depends only on the rows visible through '
+                  'the bound connection, clones keep the binding, the last binding wins, count/aggregates/getOne are coherent with any list the bound select may return '
+                  '(C11_conn_view_only, C11_conn_lookup_view_only, C11_conn_clone_keeps_connection, C11_conn_last_binding_wins, C11_conn_coherent, C11_txn_view_*).'),
+ 'C12': dict(text=' Class options of the dependent classes are a universally quantified parameter of the schema (lazyUpdate, cacheValues=False) and destroySelf may run '
+                  'through a Transaction: the stored effect is independent of what is queued (C12x_stored_projection, C12x_queue_independent), without a lazy class holding '
+                  'a cascade=\'null\' column the old refinement holds unchanged (C12x_plain_is_destroy, C12x_refines_partial, C12x_terminates, C12x_done_is_spec, C12x_gone); a refused '
+                  'destroy inside a transaction leaves the committed state alone and a completed one commits exactly the specification (C12x_txn_refusal_clean, '
+                  'C12x_txn_done_is_spec, C12x_txn_gone_cached/_partial); three new open findings carry refutations (the NULL of a lazy dependent is only queued; such a '
+                  'row is cascade-deleted; an uncached parent still hands out the destroyed instance after commit).'),
+ 'C13': dict(text=' Orderings are lists of keys, each a name, -name, q-field or DESC(q-field), or the other class\'s sqlmeta.defaultOrder: a list join returns the stored relation '
+                  'sorted lexicographically by the requested keys, stably, and that determines the result uniquely (C13_stable, C13_sort_determined, C13_one_to_many_order, '
+                  'C13_many_to_many_order, C13_key_forms, C13_default_order, C13_single_default); the ManyToMany / OneToMany descriptors mirror the same stored relation, '
+                  'symmetric, with add/remove/create equal to the RelatedJoin / constructor operations (C13_m2m_mirrors, C13_m2m_symmetric, C13_m2m_count, C13_o2m_mirrors, '
+                  'C13_m2m_add_same, C13_m2m_create, C13_o2m_create since repair 80b2179). Every list accessor is read twice and the orderBy lists handed to the joins are '
+                  'checked unchanged.',
+             note=' SQLRelatedJoin with an expression key on a self-referential join fails in the engine (open finding; C13_list_query_agree_related_partial excludes it); '
+                  'ManyToMany/OneToMany on a per-instance connection and destroySelf leaving ManyToMany link rows are open findings shown by stand-alone scripts.'),
+ 'C14': dict(text=' Every schema method that takes connection= (createTable, dropTable, createJoinTables, dropJoinTables, createIndexes, tableExists, clearTable and the three '
+                  '...SQL renderers) is modelled over TWO databases (Model/DdlConn.v): the addressed database makes exactly the single-database step and every other '
+                  'database is untouched, for every history (C14_connection_step, C14_connection_projection, C14_connection_frame, C14_connection_arg_wins, '
+                  'C14_connection_idempotent_create/_drop, C14_connection_exists).'),
+ 'C20': dict(text=' Destroying a master or a version, Version.nextVersion() and getChangedFields() are operations of the model: versions of a destroyed master stay and no later '
+                  'master can see them (ids are never reused), only destroySelf of a version removes one, the next version / changed fields are what the history says, on '
+                  'every connection since repair 7323516 (C20_destroy_master_keeps_versions, C20_new_master_never_sees_old_versions, C20_destroy_version, '
+                  'C20_versions_only_removed_by_destroy, C20_history_with_destroys_partial, C20_no_mixing_with_destroys_partial, C20_next_version, C20_changed_fields, '
+                  'C20_changed_fields_history_partial, C20_foreign_outcomes).',
+             note=' A lazyUpdate versioned class is judged by the oracle only (open finding lazy_update_versions_unsynced_states: versions are archived at assignment and hold '
+                  'states the row never had).'),
+}
+
 NOT_YET = 'check not built yet in this round; no claim is made'
 
 def main():
@@ -304,8 +348,8 @@ def main():
                 'evidence_file': '/verif/evidence/%s.json' % i,
                 'replay_cmd_template': './check %s --replay {path}' % i,
                 'engine': 'coq-proof+correspondence',
-                'level_claimed': {'category': 'proof', 'text': c['text'], 'design_ref': 'DESIGN.md ' + c['design']},
-                'level_note': c['note'],
+                'level_claimed': {'category': 'proof', 'text': c['text'] + MORE.get(i, {}).get('text', ''), 'design_ref': 'DESIGN.md ' + c['design']},
+                'level_note': c['note'] + MORE.get(i, {}).get('note', ''),
                 'technique': c['technique'],
             })
         else:
